@@ -375,7 +375,7 @@ impl Prop for C02 {
     }
     fn meta(&self, _ctx: &Ctx) -> Value {
         json!({"floor_evaluations": 20000, "floor_distinct": 300, "plain_pass": "quick",
-               "deferred_death_classes": ["alloc-failure", "stack-overflow"],
+               "deferred_death_classes": ["alloc-failure"],
                "assumptions": ["PaletteFormat::Ase is a literal todo!() in import and export and is not exercised (recorded as a known finding)",
                                "work / allocation events are C03's verdict"]})
     }
